@@ -17,7 +17,8 @@ EXTENDS Naturals, Sequences, FiniteSets
 \* occur together in one scenario
 \* T7 is a type whose printed name is lower case ("scn.t7"), so that it can occur inside a (lower-cased) name
 \* P1 is the pointer type *T1 (an unnamed type; it implements I1 through T1's value-receiver method)
-Concrete == {"T1", "T2", "T3", "T4", "T5", "T6", "T7", "U1", "P1", "PE", "L1", "L2"}
+\* PI1 is the pointer type *I1 (pointer to an interface variable): a type like any other, implemented by nothing
+Concrete == {"T1", "T2", "T3", "T4", "T5", "T6", "T7", "U1", "P1", "PI1", "PE", "L1", "L2"}
 \* I12 is an interface embedding I1 and I2 (implemented by T2 only): an interface implementing wider interfaces
 Ifaces   == {"I1", "I2", "E", "I12"}
 Impl     == {<<"T1", "I1">>, <<"P1", "I1">>, <<"T2", "I1">>, <<"T2", "I2">>, <<"T3", "I2">>, <<"PE", "E">>,
